@@ -294,13 +294,16 @@ func (c *Ctx) rulesC20() {
 		c.check(good && n >= 1, "C20.uniq", k+" returns slicesUniq(...)", f.Pos(), "the union must be de-duplicated")
 	}
 	if f := c.fn("pkg/machine:S.Add"); f != nil {
-		good := false
+		good := len(returnsOf(f)) > 0
+		bad := ""
 		for _, r := range returnsOf(f) {
 			if call, ok := stripConv(retVals(r)[0]).(*ssa.Call); ok && (calleeName(&call.Call) == "SAdd" || calleeName(&call.Call) == "slicesUniq") {
-				good = true
+				continue
 			}
+			good = false
+			bad = render(retVals(r)[0])
 		}
-		c.check(good, "C20.uniq", "pkg/machine:S.Add delegates to SAdd/slicesUniq", f.Pos(), "the union must be de-duplicated")
+		c.check(good, "C20.uniq", "pkg/machine:S.Add delegates to SAdd/slicesUniq", f.Pos(), "the union must be de-duplicated (and fresh) on every path; a path returns "+bad)
 	}
 	// one-sided inclusion is not equality
 	if f := c.fnOpt("pkg/machine:StatesEqual"); f != nil {
